@@ -87,6 +87,12 @@ type Logic struct { // && ||
 }
 type Not struct{ E Expr }
 type Group struct{ E Expr }
+
+// PaddedInt is an integer literal written with leading zeros (decimal all the same).
+type PaddedInt struct {
+	V    int64
+	Text string
+}
 type Call struct {
 	Alias string // import alias, "" for local
 	Fn    string
